@@ -26,7 +26,7 @@ RULE = (
     "recursive, generic-specialised, Missing-typed, defaulted, containers of containers, subclass, "
     "Any-typed) x 2-3 instances built from mutable argument containers (also read-only views of "
     "dicts the caller keeps) x every operation history up to length L (mutation attempts, updated "
-    "with valid / unknown / invalid / equal-but-invalid replacements, copy, deepcopy); "
+    "with valid / unknown / invalid / falsy-invalid / equal-but-invalid replacements, copy, deepcopy); "
     "equality: all ordered pairs (and triples for transitivity) of instances; non-trivial = the "
     "history mutates an original argument container or derives an updated copy, or the pair is "
     "of the same class"
@@ -150,24 +150,24 @@ CATALOGUE: dict[str, tuple[type, list]] = {
 
 # replacement values per (class, attribute): (valid other value builder, invalid value)
 REPLACE: dict[str, dict[str, tuple]] = {
-    "Scalars": {"a": (lambda: 9, "bad"), "b": (lambda: "z", 7), "c": (lambda: 9.5, "bad")},
-    "Sub": {"a": (lambda: 9, "bad"), "b": (lambda: "z", 7)},
-    "SeqS": {"items": (lambda: [7, 8, 9], ["bad"])},
-    "SetS": {"tags": (lambda: {"z"}, {1})},
-    "MapS": {"m": (lambda: {"zz": 9}, {"k": "bad"})},
-    "Tup2": {"t": (lambda: (9, "z"), (9, 9))},
-    "TupV": {"t": (lambda: (9,), ("bad",))},
-    "Nested": {"inner": (lambda: ak.Inner(x=9), 7), "items": (lambda: [ak.Inner(x=8)], [7])},
-    "Node": {"value": (lambda: 9, "bad"), "next": (lambda: ak.Node(value=5), 7)},
-    "BoxInt": {"item": (lambda: 9, "bad")},
-    "GInt": {"v": (lambda: 9, "bad")},
-    "MissT": {"m": (lambda: 9, "bad"), "n": (lambda: 4, "bad")},
-    "Defaults": {"x": (lambda: 9, "bad"), "y": (lambda: [9], ["bad"])},
-    "SeqSeq": {"rows": (lambda: [[9]], [["bad"]])},
-    "MapSeq": {"m": (lambda: {"q": [9]}, {"q": ["bad"]})},
-    "SeqMap": {"rows": (lambda: [{"q": 9}], [{"q": "bad"}])},
-    "OptS": {"o": (lambda: [9], ["bad"])},
-    "AnyS": {"v": (lambda: [7], None), "w": (lambda: [9], ["bad"])},
+    "Scalars": {"a": (lambda: 9, "bad", ""), "b": (lambda: "z", 7, 0), "c": (lambda: 9.5, "bad", "")},
+    "Sub": {"a": (lambda: 9, "bad", ""), "b": (lambda: "z", 7, 0)},
+    "SeqS": {"items": (lambda: [7, 8, 9], ["bad"], 0)},
+    "SetS": {"tags": (lambda: {"z"}, {1}, 0)},
+    "MapS": {"m": (lambda: {"zz": 9}, {"k": "bad"}, 0)},
+    "Tup2": {"t": (lambda: (9, "z"), (9, 9), ())},
+    "TupV": {"t": (lambda: (9,), ("bad",), 0)},
+    "Nested": {"inner": (lambda: ak.Inner(x=9), 7, 0), "items": (lambda: [ak.Inner(x=8)], [7], 0)},
+    "Node": {"value": (lambda: 9, "bad", ""), "next": (lambda: ak.Node(value=5), 7, 0)},
+    "BoxInt": {"item": (lambda: 9, "bad", "")},
+    "GInt": {"v": (lambda: 9, "bad", "")},
+    "MissT": {"m": (lambda: 9, "bad", ""), "n": (lambda: 4, "bad", "")},
+    "Defaults": {"x": (lambda: 9, "bad", ""), "y": (lambda: [9], ["bad"], 0)},
+    "SeqSeq": {"rows": (lambda: [[9]], [["bad"]], 0)},
+    "MapSeq": {"m": (lambda: {"q": [9]}, {"q": ["bad"]}, 0)},
+    "SeqMap": {"rows": (lambda: [{"q": 9}], [{"q": "bad"}], 0)},
+    "OptS": {"o": (lambda: [9], ["bad"], 0)},
+    "AnyS": {"v": (lambda: [7], None, None), "w": (lambda: [9], ["bad"], 0)},
 }
 
 
@@ -281,6 +281,9 @@ def execute(program, ch: Chooser) -> Result:  # noqa: C901, PLR0912, PLR0915
                 if rep[bad][1] is None:
                     continue  # nothing is invalid for this attribute (Any)
                 ops.append((f"updated {','.join(subset)} invalid={bad}", ("upd", subset, ("bad", bad))))
+                if len(subset) == 1 and len(rep[bad]) > 2 and rep[bad][2] is not None:
+                    # an invalid replacement that is also falsy ('' for an int, 0 for a container)
+                    ops.append((f"updated {bad} invalid-falsy", ("upd", subset, ("bad2", bad))))
             if len(subset) == 1 and cls.__ATTRIBUTES__[subset[0]].default is not MISSING or (len(subset) == 1 and name == "MissT"):
                 # replacing with MISSING means "not given": the attribute falls back to its default
                 ops.append((f"updated {subset[0]}=MISSING", ("upd", subset, ("missing", subset[0]))))
@@ -333,7 +336,7 @@ def execute(program, ch: Chooser) -> Result:  # noqa: C901, PLR0912, PLR0915
                 kw = {extra[1]: _equal_but_invalid(getattr(inst, extra[1]))}
                 expect_fail = True
             elif isinstance(extra, tuple):
-                kw[extra[1]] = rep[extra[1]][1]
+                kw[extra[1]] = rep[extra[1]][2 if extra[0] == "bad2" else 1]
                 expect_fail = True
             try:
                 new = inst.updated(**copy.deepcopy(kw))
